@@ -77,7 +77,9 @@ func ToCatalog(rows []any, ident string, identRight string, joinExpr sqlparser.E
 			if err != nil {
 				return nil, err
 			}
-			buffer.WriteString(fmt.Sprintf("%v", reader))
+			// length-prefixed so that ("a-", "b") and ("a", "-b") get different keys
+			text := fmt.Sprintf("%v", reader)
+			buffer.WriteString(fmt.Sprintf("%d:%s", len(text), text))
 			buffer.WriteString("-")
 			mapper[mappedColumns[column]] = reader
 		}
